@@ -14,23 +14,29 @@ open Clvm.Serde.Classic (atomEnc)
 
 /-! ### entries change, parents do not grow -/
 
-theorem UInv.shrink {K C} {tc : TC} (h : UInv K C tc) (es : Array NodeEntry) (hsz : es.size = tc.entries.size)
-    (hsub : ∀ (X : Nat) (e' : NodeEntry), es[X]? = some e' → ∃ e : NodeEntry, tc.entries[X]? = some e ∧ ∀ x, x ∈ e'.parents → x ∈ e.parents) :
-    UInv K C { tc with entries := es } where
+theorem UInv.shrink {sent K C} {tc : TC} (h : UInv sent K C tc) (es : Array NodeEntry) (hsz : es.size = tc.entries.size)
+    (hsub : ∀ (X : Nat) (e' : NodeEntry), es[X]? = some e' → ∃ e : NodeEntry, tc.entries[X]? = some e ∧
+      e'.serializedLength = e.serializedLength ∧ ∀ x, x ∈ e'.parents → x ∈ e.parents) :
+    UInv sent K C { tc with entries := es } where
   sentinel := h.sentinel
   parents := by
     intro X e' he' P d hm
-    obtain ⟨e, he, hs⟩ := hsub X e' he'
+    obtain ⟨e, he, _, hs⟩ := hsub X e' he'
     simp only [hsz]
     exact h.parents X e he P d (hs _ hm)
   nodeMap := by intro k i hk; simp only [hsz]; exact h.nodeMap k i hk
   atoms := by intro b i hk; simp only [hsz]; exact h.atoms b i hk
   pairs := by intro l r i hk; simp only [hsz]; exact h.pairs l r i hk
+  slZero := by
+    intro m hm i e' he' hc
+    obtain ⟨e, he, hsl, _⟩ := hsub i e' he'
+    rw [hsl]; exact h.slZero m hm i e he hc
 
 theorem set_sameParents {es : Array NodeEntry} {i : Nat} {e e1 : NodeEntry} (he : es[i]? = some e)
-    (hp : ∀ x, x ∈ e1.parents → x ∈ e.parents) :
+    (hsl : e1.serializedLength = e.serializedLength) (hp : ∀ x, x ∈ e1.parents → x ∈ e.parents) :
     (es.set! i e1).size = es.size ∧
-    ∀ (X : Nat) (e' : NodeEntry), (es.set! i e1)[X]? = some e' → ∃ e0 : NodeEntry, es[X]? = some e0 ∧ ∀ x, x ∈ e'.parents → x ∈ e0.parents := by
+    ∀ (X : Nat) (e' : NodeEntry), (es.set! i e1)[X]? = some e' → ∃ e0 : NodeEntry, es[X]? = some e0 ∧
+      e'.serializedLength = e0.serializedLength ∧ ∀ x, x ∈ e'.parents → x ∈ e0.parents := by
   refine ⟨by simp [Array.set!], ?_⟩
   intro X e' hX
   rw [Array.set!, Array.getElem?_setIfInBounds] at hX
@@ -39,16 +45,105 @@ theorem set_sameParents {es : Array NodeEntry} {i : Nat} {e e1 : NodeEntry} (he 
     rw [if_pos rfl] at hX
     split at hX
     · simp only [Option.some.injEq] at hX; subst hX
-      exact ⟨e, he, hp⟩
+      exact ⟨e, he, hsl, hp⟩
     · cases hX
   · rw [if_neg hix] at hX
-    exact ⟨e', hX, fun _ hx => hx⟩
+    exact ⟨e', hX, rfl, fun _ hx => hx⟩
+
+/-! ### substitution of the pending sentinel -/
+
+/-- replace every marker atom -/
+def substAll (m : Bytes) (x : Tree) : Tree → Tree
+  | .atom b => if b = m then x else .atom b
+  | .pair l r => .pair (substAll m x l) (substAll m x r)
+
+/-- the refinement of contents when the tree `x` is added: the pending sentinel becomes `x` -/
+def sigma (sent : Option Bytes) (x : Tree) : Tree → Tree :=
+  match sent with
+  | some m => substAll m x
+  | none => id
+
+theorem substAll_clean (m : Bytes) (x : Tree) : ∀ (t : Tree), cnt m t = 0 → substAll m x t = t := by
+  intro t
+  induction t with
+  | atom b =>
+    intro h
+    simp only [cnt] at h
+    split at h
+    · cases h
+    · rename_i hb; simp [substAll, hb]
+  | pair l r ihl ihr =>
+    intro h
+    simp only [cnt] at h
+    simp only [substAll, ihl (by omega), ihr (by omega)]
+
+theorem child_sigma {sent : Option Bytes} {x t u : Tree} {d : Bool} (h : child t d = some u) :
+    child (sigma sent x t) d = some (sigma sent x u) := by
+  cases sent with
+  | none => exact h
+  | some m =>
+    cases t with
+    | atom b => simp [child] at h
+    | pair l r =>
+      cases d <;> simp only [child, Option.some.injEq] at h <;> subst h <;> rfl
+
+/-- the invariant survives the refinement of all contents -/
+theorem UInv.refine {sent K C} {tc : TC} (h : UInv sent K C tc) (x : Tree)
+    (hx : ∀ m, sent = some m → cnt m x ≤ 1) :
+    UInv sent (fun k => sigma sent x (K k)) (fun i => sigma sent x (C i)) tc where
+  sentinel := h.sentinel
+  parents := by
+    intro X e he P d hm
+    obtain ⟨p1, p2⟩ := h.parents X e he P d hm
+    exact ⟨p1, child_sigma p2⟩
+  nodeMap := by
+    intro k i hk
+    obtain ⟨p1, p2⟩ := h.nodeMap k i hk
+    exact ⟨p1, fun hs => by simp only [p2 hs]⟩
+  atoms := by
+    intro b i hk
+    obtain ⟨p1, p2, p3⟩ := h.atoms b i hk
+    refine ⟨p1, ?_, p3⟩
+    simp only [p2]
+    cases sent with
+    | none => rfl
+    | some m =>
+      have : b ≠ m := fun e => p3 (by rw [e])
+      simp [sigma, substAll, this]
+  pairs := by
+    intro l r i hk
+    obtain ⟨p1, p2, p3, p4⟩ := h.pairs l r i hk
+    refine ⟨p1, p2, p3, ?_⟩
+    simp only [p4]
+    cases sent <;> rfl
+  slZero := by
+    intro m hm i e he hc
+    apply h.slZero m hm i e he
+    -- a content that contains the marker after the substitution contained it before
+    subst hm
+    simp only [sigma] at hc
+    cases hz : cnt m (C i) with
+    | zero => rw [substAll_clean m x _ hz, hz] at hc; omega
+    | succ n => omega
+
+theorem UInv.changeK {sent K C} {tc : TC} (h : UInv sent K C tc) (K' : Key → Tree)
+    (hagree : ∀ k i, alGet tc.nodeMap k = some i → ¬ IsSK sent k → K' k = K k) : UInv sent K' C tc where
+  sentinel := h.sentinel
+  parents := h.parents
+  nodeMap := by
+    intro k i hk
+    obtain ⟨p1, p2⟩ := h.nodeMap k i hk
+    exact ⟨p1, fun hs => by rw [p2 hs, hagree k i hk hs]⟩
+  atoms := h.atoms
+  pairs := h.pairs
+  slZero := h.slZero
 
 theorem modEntry_sub {es es' : Array NodeEntry} {i : Nat} {f : NodeEntry → Except Err NodeEntry}
     (hm : modEntry es i f = .ok es')
-    (hf : ∀ (e e' : NodeEntry), f e = .ok e' → ∀ x, x ∈ e'.parents → x ∈ e.parents) :
+    (hf : ∀ (e e' : NodeEntry), f e = .ok e' → e'.serializedLength = e.serializedLength ∧ ∀ x, x ∈ e'.parents → x ∈ e.parents) :
     es'.size = es.size ∧
-    ∀ (X : Nat) (e' : NodeEntry), es'[X]? = some e' → ∃ e0 : NodeEntry, es[X]? = some e0 ∧ ∀ x, x ∈ e'.parents → x ∈ e0.parents := by
+    ∀ (X : Nat) (e' : NodeEntry), es'[X]? = some e' → ∃ e0 : NodeEntry, es[X]? = some e0 ∧
+      e'.serializedLength = e0.serializedLength ∧ ∀ x, x ∈ e'.parents → x ∈ e0.parents := by
   unfold modEntry at hm
   cases he : es[i]? with
   | none => simp [he] at hm
@@ -59,22 +154,81 @@ theorem modEntry_sub {es es' : Array NodeEntry} {i : Nat} {f : NodeEntry → Exc
     | ok e1 =>
       simp only [hfe, Except.ok.injEq] at hm
       subst hm
-      exact set_sameParents he (hf e e1 hfe)
+      exact set_sameParents he (hf e e1 hfe).1 (hf e e1 hfe).2
 
-/-! ### `update` without sentinel -/
+/-! ### `update` -/
 
-theorem update_spec {K C} {tc tc' : TC} (h : UInv K C tc) (root : Node) (hk : KOk K root)
+/-- taking the root parents: the invariant stays, the taken links point at the sentinel entry -/
+theorem takeRootParents_spec {sent K C} {tc : TC} (h : UInv sent K C tc) :
+    UInv sent K C tc.takeRootParents.2 ∧ tc.takeRootParents.2.entries.size = tc.entries.size ∧
+    tc.takeRootParents.2.nodeMap = tc.nodeMap ∧ tc.takeRootParents.2.stack = tc.stack ∧
+    (∀ P d, (P, d) ∈ tc.takeRootParents.1 → ∃ m s0, sent = some m ∧ alGet tc.nodeMap (Key.atom m) = some s0 ∧
+      P < tc.entries.size ∧ child (C P) d = some (C s0)) := by
+  unfold TC.takeRootParents
+  cases hs : tc.sentinelKey with
+  | none => refine ⟨h, ?_, ?_, ?_, ?_⟩ <;> simp
+  | some k =>
+    simp only []
+    cases hg : alGet tc.nodeMap k with
+    | none => refine ⟨h, ?_, ?_, ?_, ?_⟩ <;> simp
+    | some idx =>
+      simp only []
+      cases he : tc.entries[idx]? with
+      | none => refine ⟨h, ?_, ?_, ?_, ?_⟩ <;> simp
+      | some e =>
+        simp only []
+        obtain ⟨s1, s2⟩ := set_sameParents (e1 := { e with parents := [] }) he rfl (fun _ hx => by cases hx)
+        have hinv := h.shrink _ s1 s2
+        refine ⟨⟨hinv.sentinel, hinv.parents, hinv.nodeMap, hinv.atoms, hinv.pairs, hinv.slZero⟩, s1, trivial, trivial, ?_⟩
+        intro P d hm
+        unfold TC.sentinelKey at hs
+        cases hsen : tc.sentinel with
+        | none => simp [hsen] at hs
+        | some m =>
+          simp only [hsen, Option.map_some, Option.some.injEq] at hs
+          subst hs
+          obtain ⟨p1, p2⟩ := h.parents idx e he P d hm
+          exact ⟨m, idx, by rw [← h.sentinel]; exact hsen, hg, p1, p2⟩
+
+theorem mem_extendParents {e : NodeEntry} {rp : List (Nat × Bool)} {x : Nat × Bool}
+    (h : x ∈ (extendParents e rp).parents) : x ∈ e.parents ∨ x ∈ rp := by
+  unfold extendParents at h
+  simp only [] at h
+  split at h
+  · exact List.mem_append.mp (List.mem_of_mem_drop h)
+  · exact List.mem_append.mp h
+
+/-- **`update()` keeps the invariant**, with all contents refined by the added tree: `K'` is the new
+key-content function — right for the nodes of `root`, and the refinement of `K` on what was registered. -/
+theorem update_spec {sent K C} {tc tc' : TC} (h : UInv sent K C tc) (root : Node) (K' : Key → Tree)
+    (hk : KOk K' root) (hx : ∀ m, sent = some m → cnt m root.tree ≤ 1)
+    (hagree : ∀ k i, alGet tc.nodeMap k = some i → ¬ IsSK sent k → K' k = sigma sent root.tree (K k))
+    (hpend : ∀ m s0, sent = some m → alGet tc.nodeMap (Key.atom m) = some s0 → C s0 = Tree.atom m)
     (hu : tc.update root = .ok tc') :
-    ∃ C', UInv K C' tc' ∧ (∀ j, j < tc.entries.size → C' j = C j) ∧ tc'.stack = tc.stack := by
+    ∃ C', UInv sent K' C' tc' ∧ (∀ j, j < tc.entries.size → C' j = sigma sent root.tree (C j)) ∧
+      tc'.stack = tc.stack ∧ tc.entries.size ≤ tc'.entries.size ∧
+      (∀ k, alGet tc'.nodeMap k ≠ none → alGet tc.nodeMap k ≠ none ∨ ∃ s, s ∈ subs root ∧ s.key = k) ∧
+      (∀ m j, sent = some m → alGet tc'.nodeMap (Key.atom m) = some j →
+        alGet tc.nodeMap (Key.atom m) = some j ∨ C' j = Tree.atom m) ∧
+      (∀ m, sent = some m → cnt m root.tree = 1 →
+        (∀ s, s ∈ subs root → IsPair s → cnt m s.tree ≥ 1 → alGet tc.nodeMap s.key = none) →
+        ∃ j, alGet tc'.nodeMap (Key.atom m) = some j ∧ C' j = Tree.atom m) := by
   unfold TC.update at hu
-  have hsk : tc.sentinelKey = none := by simp [TC.sentinelKey, h.sentinel]
-  simp only [hsk] at hu
-  cases hl : updateLoop (updateFuel root) [.traverse root] [] tc with
+  obtain ⟨t1, t2, t3, t4, t5⟩ := takeRootParents_spec h
+  generalize tc.takeRootParents = rp at hu t1 t2 t3 t4 t5
+  simp only [] at hu
+  -- refine the contents, switch to the new key-content function
+  have hinv1 : UInv sent K' (fun i => sigma sent root.tree (C i)) rp.2 :=
+    (t1.refine root.tree hx).changeK K' (by
+      intro k i hki hns
+      rw [t3] at hki
+      exact hagree k i hki hns)
+  cases hl : updateLoop (updateFuel root) [.traverse root] [] rp.2 with
   | error e => simp [hl] at hu
   | ok res =>
     obtain ⟨stack, tc1⟩ := res
     simp only [hl] at hu
-    obtain ⟨f', i, tc2, C', h2, st⟩ := updateLoop_traverse K root hk _ _ _ _ _ C h hl
+    obtain ⟨f', i, tc2, C', h2, st⟩ := updateLoop_traverse sent K' root hk _ _ _ _ _ _ hinv1 hl
     cases f' with
     | zero => simp [updateLoop] at h2
     | succ f' =>
@@ -90,27 +244,80 @@ theorem update_spec {K C} {tc tc' : TC} (h : UInv K C tc) (root : Node) (hk : KO
         · split at hu
           · cases hu
           · rename_i es hm
-            cases hx : tc2.serializedNodes.extend es.size with
-            | error e => simp [hx] at hu
+            cases hxs : tc2.serializedNodes.extend es.size with
+            | error e => simp [hxs] at hu
             | ok sn =>
-              simp only [hx, Except.ok.injEq] at hu
+              simp only [hxs, Except.ok.injEq] at hu
               subst hu
-              refine ⟨C', ?_, st.same, st.stack⟩
-              obtain ⟨s1, s2⟩ := modEntry_sub hm (by
-                intro e e' hf x hx
-                simp only [Except.ok.injEq] at hf
-                subst hf
-                simp only [List.append_nil] at hx
-                split at hx
-                · exact List.mem_of_mem_drop hx
-                · exact hx)
-              have := st.inv.shrink _ s1 s2
-              exact ⟨this.sentinel, this.parents, this.nodeMap, this.atoms, this.pairs⟩
+              have hsame : ∀ j, j < tc.entries.size → C' j = sigma sent root.tree (C j) :=
+                fun j hj => st.same j (by rw [t2]; exact hj)
+              -- the root entry with the taken parents added
+              have hsz : es.size = tc2.entries.size := modEntry_size hm
+              have hinv2 : UInv sent K' C' { tc2 with entries := es } := by
+                unfold modEntry at hm
+                cases he : tc2.entries[i]? with
+                | none => simp [he] at hm
+                | some e =>
+                  simp only [he, Except.ok.injEq] at hm
+                  subst hm
+                  refine ⟨st.inv.sentinel, ?_, ?_, ?_, ?_, ?_⟩
+                  · intro Y e' he' P d hmem
+                    simp only [hsz]
+                    rw [Array.set!, Array.getElem?_setIfInBounds] at he'
+                    by_cases hiy : i = Y
+                    · subst hiy
+                      rw [if_pos rfl] at he'
+                      split at he'
+                      · simp only [Option.some.injEq] at he'; subst he'
+                        rcases mem_extendParents hmem with h1 | h1
+                        · exact st.inv.parents i e he P d h1
+                        · obtain ⟨m, s0, hm', hs0, hP, hch⟩ := t5 P d h1
+                          have hg' := st.grow
+                          refine ⟨by rw [t2] at hg'; omega, ?_⟩
+                          rw [hsame P hP, st.content]
+                          have := child_sigma (sent := sent) (x := root.tree) hch
+                          rw [hpend m s0 hm' hs0] at this
+                          rw [this]
+                          subst hm'
+                          simp [sigma, substAll]
+                      · cases he'
+                    · rw [if_neg hiy] at he'
+                      exact st.inv.parents Y e' he' P d hmem
+                  · intro k j hk'; simp only [hsz]; exact st.inv.nodeMap k j hk'
+                  · intro b j hk'; simp only [hsz]; exact st.inv.atoms b j hk'
+                  · intro l r j hk'; simp only [hsz]; exact st.inv.pairs l r j hk'
+                  · intro m hm' j e' he' hc
+                    rw [Array.set!, Array.getElem?_setIfInBounds] at he'
+                    by_cases hiy : i = j
+                    · subst hiy
+                      rw [if_pos rfl] at he'
+                      split at he'
+                      · simp only [Option.some.injEq] at he'; subst he'
+                        exact st.inv.slZero m hm' i e he hc
+                      · cases he'
+                    · rw [if_neg hiy] at he'
+                      exact st.inv.slZero m hm' j e' he' hc
+              refine ⟨C', ⟨hinv2.sentinel, hinv2.parents, hinv2.nodeMap, hinv2.atoms, hinv2.pairs, hinv2.slZero⟩, hsame,
+                by rw [st.stack, t4], ?_, ?_, ?_, ?_⟩
+              · show tc.entries.size ≤ es.size
+                rw [hsz, ← t2]; exact st.grow
+              · intro k hne
+                rcases st.fresh k hne with hh | hh
+                · rw [t3] at hh; exact .inl hh
+                · exact .inr hh
+              · intro m j hm' hj
+                rcases st.sentNew m j hm' hj with hh | ⟨_, hc⟩
+                · rw [t3] at hh; exact .inl hh
+                · exact .inr hc
+              · intro m hm' hc hun
+                obtain ⟨j, g, _, c⟩ := st.sentHit m hm' hc (fun s hs hp hcs => by rw [t3]; exact hun s hs hp hcs)
+                exact ⟨j, g, c⟩
 
 /-! ### `push`, `pop`, `pop2_and_cons` -/
 
-theorem push_spec {K C} {tc tc' : TC} (h : UInv K C tc) (node : Node) (hp : tc.push node = .ok tc') :
-    ∃ idx, alGet tc.nodeMap node.key = some idx ∧ tc'.stack.reverse = idx :: tc.stack.reverse ∧ UInv K C tc' := by
+theorem push_spec {sent K C} {tc tc' : TC} (h : UInv sent K C tc) (node : Node) (hp : tc.push node = .ok tc') :
+    ∃ idx, alGet tc.nodeMap node.key = some idx ∧ tc'.stack.reverse = idx :: tc.stack.reverse ∧
+      tc'.nodeMap = tc.nodeMap ∧ UInv sent K C tc' := by
   unfold TC.push at hp
   cases hg : alGet tc.nodeMap node.key with
   | none => simp [hg] at hp
@@ -120,17 +327,17 @@ theorem push_spec {K C} {tc tc' : TC} (h : UInv K C tc) (node : Node) (hp : tc.p
     | none => simp [he] at hp
     | some e =>
       simp only [he] at hp
-      obtain ⟨s1, s2⟩ := set_sameParents (e1 := { e with onStack := e.onStack + 1 }) he (fun _ hx => hx)
+      obtain ⟨s1, s2⟩ := set_sameParents (e1 := { e with onStack := e.onStack + 1 }) he rfl (fun _ hx => hx)
       have hinv := h.shrink _ s1 s2
       cases hv : visitIf tc.serializedNodes (decide (e.serializedLength ≥ Gen.treeCacheMinSerializedLength)) idx with
       | error er => simp [hv] at hp
       | ok sn =>
         simp only [hv, Except.ok.injEq] at hp
         subst hp
-        exact ⟨idx, rfl, by simp, ⟨hinv.sentinel, hinv.parents, hinv.nodeMap, hinv.atoms, hinv.pairs⟩⟩
+        exact ⟨idx, rfl, by simp, rfl, ⟨hinv.sentinel, hinv.parents, hinv.nodeMap, hinv.atoms, hinv.pairs, hinv.slZero⟩⟩
 
-theorem pop_spec {K C} {tc tc' : TC} (h : UInv K C tc) (hp : tc.pop = .ok tc') :
-    ∃ idx, tc.stack.reverse = idx :: tc'.stack.reverse ∧ tc'.nodeMap = tc.nodeMap ∧ UInv K C tc' := by
+theorem pop_spec {sent K C} {tc tc' : TC} (h : UInv sent K C tc) (hp : tc.pop = .ok tc') :
+    ∃ idx, tc.stack.reverse = idx :: tc'.stack.reverse ∧ tc'.nodeMap = tc.nodeMap ∧ UInv sent K C tc' := by
   unfold TC.pop at hp
   cases hl : tc.stack.getLast? with
   | none => simp [hl] at hp
@@ -144,13 +351,39 @@ theorem pop_spec {K C} {tc tc' : TC} (h : UInv K C tc) (hp : tc.pop = .ok tc') :
       · cases hp
       · simp only [Except.ok.injEq] at hp
         subst hp
-        obtain ⟨s1, s2⟩ := set_sameParents (e1 := { e with onStack := e.onStack - 1 }) he (fun _ hx => hx)
+        obtain ⟨s1, s2⟩ := set_sameParents (e1 := { e with onStack := e.onStack - 1 }) he rfl (fun _ hx => hx)
         have hinv := h.shrink _ s1 s2
-        refine ⟨idx, ?_, rfl, ⟨hinv.sentinel, hinv.parents, hinv.nodeMap, hinv.atoms, hinv.pairs⟩⟩
+        refine ⟨idx, ?_, rfl, ⟨hinv.sentinel, hinv.parents, hinv.nodeMap, hinv.atoms, hinv.pairs, hinv.slZero⟩⟩
         obtain ⟨ys, hys⟩ := List.getLast?_eq_some_iff.mp hl
         show tc.stack.reverse = idx :: tc.stack.dropLast.reverse
         rw [hys]
         simp
+
+/-- a path is only returned for an entry with a serialized length -/
+theorem findPath_sl {tc : TC} {node : Node} {path : Bytes} (h : tc.findPath node = .ok (some path)) :
+    ∃ idx e, alGet tc.nodeMap node.key = some idx ∧ tc.entries[idx]? = some e ∧ e.serializedLength ≠ 0 := by
+  unfold TC.findPath at h
+  split at h
+  · cases h
+  · cases hn : alGet tc.nodeMap node.key with
+    | none => simp [hn] at h
+    | some idx =>
+      simp only [hn] at h
+      cases hv : tc.serializedNodes.isVisited idx with
+      | error e => simp [hv] at h
+      | ok b =>
+        cases b with
+        | false => simp [hv] at h
+        | true =>
+          simp only [hv] at h
+          cases he : tc.entries[idx]? with
+          | none => simp [he] at h
+          | some entry =>
+            simp only [he] at h
+            split at h
+            · cases h
+            · rename_i hz
+              exact ⟨idx, entry, rfl, he, by simpa using hz⟩
 
 /-! ### the serializer loop and the decoder in lock step -/
 
@@ -160,21 +393,22 @@ def opsOfF : List FReadOp → List ParseOp
   | .cons _ :: r => .cons :: opsOfF r
 
 /-- what the pending operations will leave on the decoder's value stack; every `Cons(node)` finds the
-contents of `node`'s children on top -/
-def finalRootF : List FReadOp → List Tree → Tree → Option Tree
+contents of `node`'s children on top (`K` = current contents of the `NodePtr`s) -/
+def finalRootF (K : Key → Tree) : List FReadOp → List Tree → Tree → Option Tree
   | [], [], root => some root
   | [], _ :: _, _ => none
-  | .parse :: ops, t :: ws, root => finalRootF ops ws (Tree.pair t root)
+  | .parse :: ops, t :: ws, root => finalRootF K ops ws (Tree.pair t root)
   | .parse :: _, [], _ => none
   | .cons n :: ops, ws, .pair r (.pair l rest) =>
-    if Tree.pair l r = n.tree then finalRootF ops ws (Tree.pair (Tree.pair l r) rest) else none
+    if Tree.pair l r = K n.key then finalRootF K ops ws (Tree.pair (Tree.pair l r) rest) else none
   | .cons _ :: _, _, _ => none
 
 def HeadNotConsF : List FReadOp → Prop
   | .cons _ :: _ => False
   | _ => True
 
-def OpsOk (K : Key → Tree) (ops : List FReadOp) : Prop := ∀ n, FReadOp.cons n ∈ ops → KOk K n
+/-- the pending `Cons` operations are about pairs -/
+def OpsPairs (ops : List FReadOp) : Prop := ∀ n, FReadOp.cons n ∈ ops → IsPair n
 
 /-- the prefix invariant: the decoder, fed with the bytes written so far, stands at (`pops`, `root`) -/
 def PSim (buf : Bytes) (pops : List ParseOp) (root : Tree) : Prop :=
@@ -191,28 +425,38 @@ theorem PSim.step {buf tok : Bytes} {pops pops2 : List ParseOp} {root root2 : Tr
 /-- the mirror of the parse stack -/
 def M (C : Nat → Tree) (tc : TC) : Tree := mirror C tc.stack.reverse
 
-theorem fPopConses_sim (K : Key → Tree) (C : Nat → Tree) : ∀ (fuel : Nat) (ops : List FReadOp) (tc : TC)
+/-- no stacked content contains the marker -/
+def Clean (sent : Option Bytes) (t : Tree) : Prop := ∀ m, sent = some m → cnt m t = 0
+
+theorem isPair_key {sent : Option Bytes} {n : Node} (h : IsPair n) : ¬ IsSK sent n.key := by
+  cases n with
+  | atom b => cases h
+  | pair id l r => exact not_isSK_pair
+
+theorem fPopConses_sim (sent : Option Bytes) (K : Key → Tree) (C : Nat → Tree) : ∀ (fuel : Nat) (ops : List FReadOp) (tc : TC)
     (ops' : List FReadOp) (tc' : TC) (ws : List Tree) (R : Tree),
-    fPopConses fuel ops tc = .ok (ops', tc') → UInv K C tc → OpsOk K ops → finalRootF ops ws (M C tc) = some R →
-    UInv K C tc' ∧ OpsOk K ops' ∧ HeadNotConsF ops' ∧ finalRootF ops' ws (M C tc') = some R ∧
+    fPopConses fuel ops tc = .ok (ops', tc') → UInv sent K C tc → OpsPairs ops → Clean sent (M C tc) →
+    finalRootF K ops ws (M C tc) = some R →
+    UInv sent K C tc' ∧ OpsPairs ops' ∧ HeadNotConsF ops' ∧ Clean sent (M C tc') ∧ finalRootF K ops' ws (M C tc') = some R ∧
+    tc'.nodeMap = tc.nodeMap ∧ (∀ n, FReadOp.cons n ∈ ops' → FReadOp.cons n ∈ ops) ∧
     ∀ inp ctr, PairInv ctr →
       Steps (deBrOld inp (opsOfF ops) (M C tc) ctr) (fun c2 => deBrOld inp (opsOfF ops') (M C tc') c2) := by
   intro fuel
   induction fuel with
   | zero => intro ops tc ops' tc' ws R h; simp [fPopConses] at h
   | succ fuel ih =>
-    intro ops tc ops' tc' ws R h hinv hok hfr
+    intro ops tc ops' tc' ws R h hinv hok hcl hfr
     cases ops with
     | nil =>
       simp only [fPopConses, Except.ok.injEq, Prod.mk.injEq] at h
       obtain ⟨rfl, rfl⟩ := h
-      exact ⟨hinv, hok, trivial, hfr, fun _ _ hc => Steps.refl hc⟩
+      exact ⟨hinv, hok, trivial, hcl, hfr, rfl, fun _ hn => hn, fun _ _ hc => Steps.refl hc⟩
     | cons op ops =>
       cases op with
       | parse =>
         simp only [fPopConses, Except.ok.injEq, Prod.mk.injEq] at h
         obtain ⟨rfl, rfl⟩ := h
-        exact ⟨hinv, hok, trivial, hfr, fun _ _ hc => Steps.refl hc⟩
+        exact ⟨hinv, hok, trivial, hcl, hfr, rfl, fun _ hn => hn, fun _ _ hc => Steps.refl hc⟩
       | cons node =>
         simp only [fPopConses] at h
         cases hp : tc.pop2AndCons node with
@@ -230,10 +474,9 @@ theorem fPopConses_sim (K : Key → Tree) (C : Nat → Tree) : ∀ (fuel : Nat) 
               simp only [hp2] at hp
               obtain ⟨ir, e1, n1, i1⟩ := pop_spec hinv hp1
               obtain ⟨il, e2, n2, i2⟩ := pop_spec i1 hp2
-              obtain ⟨idx, g3, e3, i3⟩ := push_spec i2 node hp
-              have hkn : KOk K node := hok node List.mem_cons_self
-              have hci : C idx = node.tree := by
-                rw [(i2.nodeMap _ _ g3).2]; exact hkn node (self_mem_subs node)
+              obtain ⟨idx, g3, e3, n3, i3⟩ := push_spec i2 node hp
+              have hpn : IsPair node := hok node List.mem_cons_self
+              have hci : C idx = K node.key := (i2.nodeMap _ _ g3).2 (isPair_key hpn)
               have hM : M C tc = Tree.pair (C ir) (Tree.pair (C il) (M C tc2)) := by
                 unfold M; rw [e1, e2]; rfl
               have hM3 : M C tc3 = Tree.pair (C idx) (M C tc2) := by
@@ -242,10 +485,17 @@ theorem fPopConses_sim (K : Key → Tree) (C : Nat → Tree) : ∀ (fuel : Nat) 
               simp only [finalRootF] at hfr
               split at hfr
               · rename_i hchk
-                have hfr3 : finalRootF ops ws (M C tc3) = some R := by rw [hM3, hci, ← hchk]; exact hfr
-                obtain ⟨j1, j2, j3, j4, j5⟩ := ih ops tc3 ops' tc' ws R h i3
-                  (fun n hn => hok n (List.mem_cons_of_mem _ hn)) hfr3
-                refine ⟨j1, j2, j3, j4, ?_⟩
+                have hfr3 : finalRootF K ops ws (M C tc3) = some R := by rw [hM3, hci, ← hchk]; exact hfr
+                have hcl3 : Clean sent (M C tc3) := by
+                  intro m hm
+                  have := hcl m hm
+                  rw [hM] at this
+                  rw [hM3, hci, ← hchk]
+                  simp only [cnt] at this ⊢
+                  omega
+                obtain ⟨j1, j2, j3, j4, j5, j6, j8, j7⟩ := ih ops tc3 ops' tc' ws R h i3
+                  (fun n hn => hok n (List.mem_cons_of_mem _ hn)) hcl3 hfr3
+                refine ⟨j1, j2, j3, j4, j5, by rw [j6, n3, n2, n1], fun n hn => List.mem_cons_of_mem _ (j8 n hn), ?_⟩
                 intro inp ctr hc
                 rw [hM]
                 show Steps (deBrOld inp (.cons :: opsOfF ops) _ ctr) _
@@ -255,178 +505,282 @@ theorem fPopConses_sim (K : Key → Tree) (C : Nat → Tree) : ∀ (fuel : Nat) 
                 intro ca hca
                 refine (steps_newPair ca hca _).trans ?_
                 intro cb hcb
-                have := j5 inp cb hcb
+                have := j7 inp cb hcb
                 rw [hM3, hci, ← hchk] at this
                 exact this
               · cases hfr
 
-theorem isSentinel_none {tc : TC} (h : tc.sentinel = none) (n : Node) : tc.isSentinel n = false := by
-  cases n <;> simp [TC.isSentinel, h]
+/-- total number of marker occurrences on the write stack -/
+def tot (m : Bytes) (ws : List Node) : Nat := (ws.map (fun n => cnt m n.tree)).sum
 
-/-- **the loop of `add`** on a cache without sentinel: it runs to completion, the parse stack then holds
-exactly what the pending stacks promised, and the decoder has followed -/
-theorem fAddLoop_sim (K : Key → Tree) (C : Nat → Tree) : ∀ (fuel : Nat) (s s' : FSer) (d : Bool) (R : Tree),
-    fAddLoop fuel s = .ok (s', d) → UInv K C s.tc → CurOk s.output → (∀ n, n ∈ s.writeStack → KOk K n) →
-    OpsOk K s.readOpStack → HeadNotConsF s.readOpStack → PSim s.output.buf (opsOfF s.readOpStack) (M C s.tc) →
-    finalRootF s.readOpStack (s.writeStack.map Node.tree) (M C s.tc) = some R →
-    d = true ∧ s'.readOpStack = [] ∧ M C s'.tc = R ∧ PSim s'.output.buf [] R ∧ CurOk s'.output := by
+/-- what the loop of `add` guarantees when it returns (`Q`: any property of nodes inherited by children) -/
+def FPost (sent : Option Bytes) (K : Key → Tree) (C : Nat → Tree) (Q : Node → Prop) (s : FSer) (s' : FSer) (d : Bool)
+    (R : Tree) : Prop :=
+  UInv sent K C s'.tc ∧ CurOk s'.output ∧ (∀ n, n ∈ s'.writeStack → Q n) ∧
+  (∀ n, FReadOp.cons n ∈ s'.readOpStack → Q n) ∧ OpsPairs s'.readOpStack ∧
+  Clean sent (M C s'.tc) ∧ PSim s'.output.buf (opsOfF s'.readOpStack) (M C s'.tc) ∧ s'.tc.nodeMap = s.tc.nodeMap ∧
+  (∀ m, sent = some m → tot m s'.writeStack + (if d then 0 else 1) = tot m s.writeStack) ∧
+  (if d then s'.readOpStack = [] ∧ s'.writeStack = [] ∧ M C s'.tc = R
+   else ∃ m, sent = some m ∧ HeadNotConsF s'.readOpStack ∧
+     finalRootF K s'.readOpStack (Tree.atom m :: s'.writeStack.map Node.tree) (M C s'.tc) = some R)
+
+theorem isSentinel_eq {tc : TC} {sent : Option Bytes} (hs : tc.sentinel = sent) {n : Node} (h : tc.isSentinel n = true) :
+    ∃ m, sent = some m ∧ n = Node.atom m := by
+  cases n with
+  | pair id l r => simp [TC.isSentinel] at h
+  | atom b =>
+    simp only [TC.isSentinel, beq_iff_eq] at h
+    exact ⟨b, by rw [← hs]; exact h, rfl⟩
+
+theorem not_isSentinel_key {tc : TC} {sent : Option Bytes} (hs : tc.sentinel = sent) {n : Node}
+    (h : tc.isSentinel n = false) : ¬ IsSK sent n.key ∧ ∀ m, sent = some m → n ≠ Node.atom m := by
+  cases n with
+  | pair id l r => exact ⟨not_isSK_pair, fun _ _ he => by cases he⟩
+  | atom b =>
+    have hne : sent ≠ some b := by
+      intro hc
+      rw [← hs] at hc
+      simp [TC.isSentinel, hc] at h
+    exact ⟨not_isSK_atom hne, fun m hm he => by cases he; exact hne hm⟩
+
+/-- **the loop of `add`**, for any sentinel: it either runs to completion or stops at the sentinel; the
+decoder has followed, the parse stack is clean, and what the pending stacks promise is unchanged -/
+theorem fAddLoop_sim (sent : Option Bytes) (K : Key → Tree) (C : Nat → Tree) (Q : Node → Prop)
+    (hQc : ∀ id l r, Q (Node.pair id l r) → Q l ∧ Q r) (hQK : ∀ n, Q n → KOk K n) :
+    ∀ (fuel : Nat) (s s' : FSer) (d : Bool) (R : Tree),
+    fAddLoop fuel s = .ok (s', d) → UInv sent K C s.tc → CurOk s.output → (∀ n, n ∈ s.writeStack → Q n) →
+    (∀ n, FReadOp.cons n ∈ s.readOpStack → Q n) → OpsPairs s.readOpStack → HeadNotConsF s.readOpStack →
+    Clean sent (M C s.tc) → PSim s.output.buf (opsOfF s.readOpStack) (M C s.tc) →
+    finalRootF K s.readOpStack (s.writeStack.map Node.tree) (M C s.tc) = some R →
+    FPost sent K C Q s s' d R := by
   intro fuel
   induction fuel with
   | zero => intro s s' d R h; simp [fAddLoop] at h
   | succ fuel ih =>
-    intro s s' d R h hinv hcur hws hok hhead hsim hfr
+    intro s s' d R h hinv hcur hws hopsQ hok hhead hclean hsim hfr
     unfold fAddLoop at h
     cases hw : s.writeStack with
     | nil =>
       simp only [hw, Except.ok.injEq, Prod.mk.injEq] at h
       obtain ⟨rfl, rfl⟩ := h
       rw [hw] at hfr
+      refine ⟨hinv, hcur, hws, hopsQ, hok, hclean, hsim, rfl, fun _ _ => by simp, ?_⟩
+      rw [if_pos rfl]
       cases hro : s.readOpStack with
       | nil =>
-        rw [hro] at hfr hsim
+        rw [hro] at hfr
         simp only [List.map_nil, finalRootF, Option.some.injEq] at hfr
-        exact ⟨rfl, rfl, hfr, by rw [← hfr]; exact hsim, hcur⟩
+        exact ⟨rfl, hw, hfr⟩
       | cons op ops =>
         rw [hro] at hfr hhead
         cases op with
         | parse => simp [finalRootF] at hfr
         | cons _ => exact absurd hhead (by simp [HeadNotConsF])
     | cons node ws =>
-      simp only [hw, isSentinel_none hinv.sentinel, Bool.false_eq_true, if_false] at h
-      have hkn : KOk K node := hws node (by rw [hw]; exact List.mem_cons_self)
-      cases hro : s.readOpStack with
-      | nil => simp [hro] at h
-      | cons op ops =>
-        cases op with
-        | cons _ => simp [hro] at h
-        | parse =>
-          simp only [hro] at h
-          rw [hw, hro] at hfr
-          rw [hro] at hsim hok
-          have hfr' : finalRootF ops (ws.map Node.tree) (Tree.pair node.tree (M C s.tc)) = some R := by
-            simpa [finalRootF] using hfr
-          cases hfp : s.tc.findPath node with
-          | error e => simp [hfp] at h
-          | ok fp =>
-            simp only [hfp] at h
-            cases hem : fEmit { s with writeStack := ws, readOpStack := ops } node fp with
-            | error e => simp [hem] at h
-            | ok s1 =>
-              simp only [hem] at h
-              cases hpc : fPopConses (s1.readOpStack.length + 1) s1.readOpStack s1.tc with
-              | error e => simp [hpc] at h
-              | ok r =>
-                obtain ⟨ops', tc'⟩ := r
-                simp only [hpc] at h
-                -- the state after the token
-                have hafter : UInv K C s1.tc ∧ CurOk s1.output ∧ (∀ n, n ∈ s1.writeStack → KOk K n) ∧
-                    OpsOk K s1.readOpStack ∧ PSim s1.output.buf (opsOfF s1.readOpStack) (M C s1.tc) ∧
-                    finalRootF s1.readOpStack (s1.writeStack.map Node.tree) (M C s1.tc) = some R := by
-                  have hwsk : ∀ n, n ∈ ws → KOk K n := fun n hn => hws n (by rw [hw]; exact List.mem_cons_of_mem _ hn)
-                  have hopk : OpsOk K ops := fun n hn => hok n (List.mem_cons_of_mem _ hn)
-                  cases fp with
-                  | some path =>
-                    simp only [fEmit] at hem
-                    obtain ⟨hb1, hc1⟩ := write_ok hcur [Classic.u8 Gen.incBackReference]
-                    cases hwa : writeAtomCur (s.output.write [Classic.u8 Gen.incBackReference]) path with
-                    | error e => simp [hwa] at hem
-                    | ok out2 =>
-                      simp only [hwa] at hem
-                      cases hpu : s.tc.push node with
-                      | error e => simp [hpu] at hem
-                      | ok tc2 =>
-                        simp only [hpu, Except.ok.injEq] at hem
-                        subst hem
-                        obtain ⟨hpl, hb2, hc2⟩ := writeAtomCur_ok hc1 hwa
-                        obtain ⟨idx, g, est, i2⟩ := push_spec hinv node hpu
-                        obtain ⟨idx', g', cost, htp⟩ := findPath_sound C s.tc hinv.parentsSound node path hfp
-                        rw [g] at g'
-                        simp only [Option.some.injEq] at g'
-                        subst g'
-                        have hci : C idx = node.tree := by
-                          rw [(hinv.nodeMap _ _ g).2]; exact hkn node (self_mem_subs node)
-                        have hM2 : M C tc2 = Tree.pair node.tree (M C s.tc) := by
-                          unfold M; rw [est, ← hci]; rfl
-                        refine ⟨i2, hc2, hwsk, hopk, ?_, by rw [hM2]; exact hfr'⟩
-                        have hbuf : out2.buf = s.output.buf ++ (UInt8.ofNat Gen.deBrBackReference :: atomEnc path) := by
-                          rw [hb2, hb1]
-                          have : Classic.u8 Gen.incBackReference = UInt8.ofNat Gen.deBrBackReference := by decide
-                          rw [this]; simp
-                        show PSim out2.buf (opsOfF ops) (M C tc2)
-                        rw [hbuf, hM2]
-                        refine hsim.step (fun rest c hcc => ?_)
-                        rw [hci] at htp
-                        have := deBrOld_backref_token' (M C s.tc) node.tree path cost htp hpl rest (opsOfF ops) c hcc
-                        simpa [opsOfF, M] using this
-                  | none =>
-                    cases node with
-                    | pair id l r =>
-                      simp only [fEmit, Except.ok.injEq] at hem
-                      subst hem
-                      obtain ⟨hb1, hc1⟩ := write_ok hcur [Classic.u8 Gen.incConsBoxMarker]
-                      refine ⟨hinv, hc1, ?_, ?_, ?_, ?_⟩
-                      · intro n hn
-                        simp only [List.mem_cons] at hn
-                        rcases hn with rfl | rfl | hn
-                        · exact hkn.left
-                        · exact hkn.right
-                        · exact hwsk n hn
-                      · intro n hn
-                        simp only [List.mem_cons, reduceCtorEq, false_or] at hn
-                        rcases hn with hn | hn
-                        · cases hn; exact hkn
-                        · exact hopk n hn
-                      · have hbuf : (s.output.write [Classic.u8 Gen.incConsBoxMarker]).buf =
-                            s.output.buf ++ [UInt8.ofNat Gen.deBrConsBoxMarker] := by
-                          rw [hb1]
-                          have : Classic.u8 Gen.incConsBoxMarker = UInt8.ofNat Gen.deBrConsBoxMarker := by decide
-                          rw [this]
-                        show PSim (s.output.write [Classic.u8 Gen.incConsBoxMarker]).buf
-                          (opsOfF (.parse :: .parse :: .cons (.pair id l r) :: ops)) (M C s.tc)
-                        rw [hbuf]
-                        refine hsim.step (fun rest c hcc => ?_)
-                        have := deBrOld_cons_token (M C s.tc) rest (opsOfF ops) c hcc
-                        simpa [opsOfF] using this
-                      · show finalRootF (.parse :: .parse :: .cons (.pair id l r) :: ops)
-                          ((l :: r :: ws).map Node.tree) (M C s.tc) = some R
-                        simpa [finalRootF, Node.tree] using hfr'
-                    | atom a =>
+      simp only [hw] at h
+      by_cases hsen : s.tc.isSentinel node = true
+      · -- the sentinel: stop here
+        simp only [hsen, if_true, Except.ok.injEq, Prod.mk.injEq] at h
+        obtain ⟨rfl, rfl⟩ := h
+        obtain ⟨m, hm, rfl⟩ := isSentinel_eq hinv.sentinel hsen
+        refine ⟨hinv, hcur, fun n hn => hws n (by rw [hw]; exact List.mem_cons_of_mem _ hn), hopsQ, hok, hclean, hsim,
+          rfl, ?_, ?_⟩
+        · intro m' hm'
+          rw [hm] at hm'
+          simp only [Option.some.injEq] at hm'
+          subst hm'
+          simp [tot, hw, Node.tree, cnt]; omega
+        · rw [if_neg (by simp)]
+          refine ⟨m, hm, hhead, ?_⟩
+          rw [hw] at hfr
+          exact hfr
+      · have hsen' : s.tc.isSentinel node = false := by simpa using hsen
+        obtain ⟨hnsk, hnotm⟩ := not_isSentinel_key hinv.sentinel hsen'
+        simp only [hsen', Bool.false_eq_true, if_false] at h
+        have hqn : Q node := hws node (by rw [hw]; exact List.mem_cons_self)
+        have hkn : KOk K node := hQK node hqn
+        cases hro : s.readOpStack with
+        | nil => simp [hro] at h
+        | cons op ops =>
+          cases op with
+          | cons _ => simp [hro] at h
+          | parse =>
+            simp only [hro] at h
+            rw [hw, hro] at hfr
+            rw [hro] at hsim hok hopsQ
+            have hfr' : finalRootF K ops (ws.map Node.tree) (Tree.pair node.tree (M C s.tc)) = some R := by
+              simpa [finalRootF] using hfr
+            cases hfp : s.tc.findPath node with
+            | error e => simp [hfp] at h
+            | ok fp =>
+              simp only [hfp] at h
+              cases hem : fEmit { s with writeStack := ws, readOpStack := ops } node fp with
+              | error e => simp [hem] at h
+              | ok s1 =>
+                simp only [hem] at h
+                cases hpc : fPopConses (s1.readOpStack.length + 1) s1.readOpStack s1.tc with
+                | error e => simp [hpc] at h
+                | ok r =>
+                  obtain ⟨ops', tc'⟩ := r
+                  simp only [hpc] at h
+                  have hwsq : ∀ n, n ∈ ws → Q n := fun n hn => hws n (by rw [hw]; exact List.mem_cons_of_mem _ hn)
+                  have hopq : ∀ n, FReadOp.cons n ∈ ops → Q n := fun n hn => hopsQ n (List.mem_cons_of_mem _ hn)
+                  have hopk : OpsPairs ops := fun n hn => hok n (List.mem_cons_of_mem _ hn)
+                  -- the state after the token
+                  have hafter : UInv sent K C s1.tc ∧ CurOk s1.output ∧ (∀ n, n ∈ s1.writeStack → Q n) ∧
+                      (∀ n, FReadOp.cons n ∈ s1.readOpStack → Q n) ∧ OpsPairs s1.readOpStack ∧ Clean sent (M C s1.tc) ∧
+                      PSim s1.output.buf (opsOfF s1.readOpStack) (M C s1.tc) ∧ s1.tc.nodeMap = s.tc.nodeMap ∧
+                      (∀ m, sent = some m → tot m s1.writeStack = tot m s.writeStack) ∧
+                      finalRootF K s1.readOpStack (s1.writeStack.map Node.tree) (M C s1.tc) = some R := by
+                    cases fp with
+                    | some path =>
                       simp only [fEmit] at hem
-                      cases hwa : writeAtomCur s.output a with
+                      obtain ⟨hb1, hc1⟩ := write_ok hcur [Classic.u8 Gen.incBackReference]
+                      cases hwa : writeAtomCur (s.output.write [Classic.u8 Gen.incBackReference]) path with
                       | error e => simp [hwa] at hem
-                      | ok out1 =>
+                      | ok out2 =>
                         simp only [hwa] at hem
-                        cases hpu : s.tc.push (.atom a) with
+                        cases hpu : s.tc.push node with
                         | error e => simp [hpu] at hem
                         | ok tc2 =>
                           simp only [hpu, Except.ok.injEq] at hem
                           subst hem
-                          obtain ⟨hal, hb1, hc1⟩ := writeAtomCur_ok hcur hwa
-                          obtain ⟨idx, g, est, i2⟩ := push_spec hinv (.atom a) hpu
-                          have hci : C idx = Tree.atom a := by
-                            rw [(hinv.nodeMap _ _ g).2]; exact hkn (.atom a) (self_mem_subs _)
-                          have hM2 : M C tc2 = Tree.pair (Tree.atom a) (M C s.tc) := by
+                          obtain ⟨hpl, hb2, hc2⟩ := writeAtomCur_ok hc1 hwa
+                          obtain ⟨idx, g, est, nm2, i2⟩ := push_spec hinv node hpu
+                          obtain ⟨idx', g', cost, htp⟩ := findPath_sound C s.tc hinv.parentsSound node path hfp
+                          obtain ⟨idx'', e'', g'', he'', hsl''⟩ := findPath_sl hfp
+                          rw [g] at g' g''
+                          simp only [Option.some.injEq] at g' g''
+                          subst g'; subst g''
+                          have hci : C idx = node.tree := by
+                            rw [(hinv.nodeMap _ _ g).2 hnsk]; exact hkn node (self_mem_subs node)
+                          -- a back-referenced node does not contain the sentinel
+                          have hcn : ∀ m, sent = some m → cnt m node.tree = 0 := by
+                            intro m hm
+                            cases hz : cnt m node.tree with
+                            | zero => rfl
+                            | succ k =>
+                              exfalso
+                              exact hsl'' (hinv.slZero m hm idx e'' he'' (by rw [hci, hz]; omega))
+                          have hM2 : M C tc2 = Tree.pair node.tree (M C s.tc) := by
                             unfold M; rw [est, ← hci]; rfl
-                          refine ⟨i2, hc1, hwsk, hopk, ?_, by rw [hM2]; exact hfr'⟩
-                          show PSim out1.buf (opsOfF ops) (M C tc2)
-                          rw [hb1, hM2]
+                          refine ⟨i2, hc2, hwsq, hopq, hopk, ?_, ?_, nm2, ?_, by rw [hM2]; exact hfr'⟩
+                          · intro m hm
+                            rw [hM2]
+                            simp only [cnt, hcn m hm, hclean m hm]
+                          · have hbuf : out2.buf = s.output.buf ++ (UInt8.ofNat Gen.deBrBackReference :: atomEnc path) := by
+                              rw [hb2, hb1]
+                              have : Classic.u8 Gen.incBackReference = UInt8.ofNat Gen.deBrBackReference := by decide
+                              rw [this]; simp
+                            show PSim out2.buf (opsOfF ops) (M C tc2)
+                            rw [hbuf, hM2]
+                            refine hsim.step (fun rest c hcc => ?_)
+                            rw [hci] at htp
+                            have := deBrOld_backref_token' (M C s.tc) node.tree path cost htp hpl rest (opsOfF ops) c hcc
+                            simpa [opsOfF, M] using this
+                          · intro m hm
+                            show tot m ws = tot m s.writeStack
+                            rw [hw]
+                            simp [tot, hcn m hm]
+                    | none =>
+                      cases node with
+                      | pair id l r =>
+                        simp only [fEmit, Except.ok.injEq] at hem
+                        subst hem
+                        obtain ⟨hb1, hc1⟩ := write_ok hcur [Classic.u8 Gen.incConsBoxMarker]
+                        obtain ⟨hql, hqr⟩ := hQc id l r hqn
+                        refine ⟨hinv, hc1, ?_, ?_, ?_, hclean, ?_, rfl, ?_, ?_⟩
+                        · intro n hn
+                          simp only [List.mem_cons] at hn
+                          rcases hn with rfl | rfl | hn
+                          · exact hql
+                          · exact hqr
+                          · exact hwsq n hn
+                        · intro n hn
+                          simp only [List.mem_cons, reduceCtorEq, false_or] at hn
+                          rcases hn with hn | hn
+                          · cases hn; exact hqn
+                          · exact hopq n hn
+                        · intro n hn
+                          simp only [List.mem_cons, reduceCtorEq, false_or] at hn
+                          rcases hn with hn | hn
+                          · cases hn; trivial
+                          · exact hopk n hn
+                        · have hbuf : (s.output.write [Classic.u8 Gen.incConsBoxMarker]).buf =
+                              s.output.buf ++ [UInt8.ofNat Gen.deBrConsBoxMarker] := by
+                            rw [hb1]
+                            have : Classic.u8 Gen.incConsBoxMarker = UInt8.ofNat Gen.deBrConsBoxMarker := by decide
+                            rw [this]
+                          show PSim (s.output.write [Classic.u8 Gen.incConsBoxMarker]).buf
+                            (opsOfF (.parse :: .parse :: .cons (.pair id l r) :: ops)) (M C s.tc)
+                          rw [hbuf]
                           refine hsim.step (fun rest c hcc => ?_)
-                          have := deBrOld_atom_token a hal rest (opsOfF ops) (M C s.tc) c hcc
+                          have := deBrOld_cons_token (M C s.tc) rest (opsOfF ops) c hcc
                           simpa [opsOfF] using this
-                obtain ⟨a1, a2, a3, a4, a5, a6⟩ := hafter
-                obtain ⟨j1, j2, j3, j4, j5⟩ := fPopConses_sim K C _ _ _ _ _ _ R hpc a1 a4 a6
-                refine ih _ s' d R h j1 a2 a3 j2 j3 ?_ j4
-                intro rest c hcc
-                exact (a5 rest c hcc).trans (fun c1 hc1 => j5 rest c1 hc1)
+                        · intro m hm
+                          show tot m (l :: r :: ws) = tot m s.writeStack
+                          rw [hw]
+                          simp [tot, Node.tree, cnt]; omega
+                        · show finalRootF K (.parse :: .parse :: .cons (.pair id l r) :: ops)
+                            ((l :: r :: ws).map Node.tree) (M C s.tc) = some R
+                          have hKn : K (Node.pair id l r).key = Tree.pair l.tree r.tree := hkn _ (self_mem_subs _)
+                          simpa [finalRootF, Node.tree, hKn] using hfr'
+                      | atom a =>
+                        simp only [fEmit] at hem
+                        cases hwa : writeAtomCur s.output a with
+                        | error e => simp [hwa] at hem
+                        | ok out1 =>
+                          simp only [hwa] at hem
+                          cases hpu : s.tc.push (.atom a) with
+                          | error e => simp [hpu] at hem
+                          | ok tc2 =>
+                            simp only [hpu, Except.ok.injEq] at hem
+                            subst hem
+                            obtain ⟨hal, hb1, hc1⟩ := writeAtomCur_ok hcur hwa
+                            obtain ⟨idx, g, est, nm2, i2⟩ := push_spec hinv (.atom a) hpu
+                            have hci : C idx = Tree.atom a := by
+                              rw [(hinv.nodeMap _ _ g).2 hnsk]; exact hkn (.atom a) (self_mem_subs _)
+                            have hca : ∀ m, sent = some m → cnt m (Tree.atom a) = 0 := by
+                              intro m hm
+                              simp only [cnt]
+                              split
+                              · rename_i ham; subst ham; exact absurd rfl (hnotm a hm)
+                              · rfl
+                            have hM2 : M C tc2 = Tree.pair (Tree.atom a) (M C s.tc) := by
+                              unfold M; rw [est, ← hci]; rfl
+                            refine ⟨i2, hc1, hwsq, hopq, hopk, ?_, ?_, nm2, ?_, by rw [hM2]; exact hfr'⟩
+                            · intro m hm
+                              rw [hM2]
+                              show cnt m (Tree.atom a) + cnt m (M C s.tc) = 0
+                              rw [hca m hm, hclean m hm]
+                            · show PSim out1.buf (opsOfF ops) (M C tc2)
+                              rw [hb1, hM2]
+                              refine hsim.step (fun rest c hcc => ?_)
+                              have := deBrOld_atom_token a hal rest (opsOfF ops) (M C s.tc) c hcc
+                              simpa [opsOfF] using this
+                            · intro m hm
+                              show tot m ws = tot m s.writeStack
+                              rw [hw]
+                              have h1 := hca m hm
+                              simp [tot, Node.tree, h1]
+                  obtain ⟨a1, a2, a3, a4, a5, a6, a7, a8, a9, a10⟩ := hafter
+                  obtain ⟨j1, j2, j3, j4, j5, j6, j8, j7⟩ := fPopConses_sim sent K C _ _ _ _ _ _ R hpc a1 a5 a6 a10
+                  have hops'Q : ∀ n, FReadOp.cons n ∈ ops' → Q n := fun n hn => a4 n (j8 n hn)
+                  have := ih { s1 with readOpStack := ops', tc := tc' } s' d R h j1 a2 a3 hops'Q j2 j3 j4
+                    (fun rest c hcc => (a7 rest c hcc).trans (fun c1 hc1 => j7 rest c1 hc1)) j5
+                  obtain ⟨b1, b2, b3, b4, b5, b6, b7, b8, b9, b10⟩ := this
+                  exact ⟨b1, b2, b3, b4, b5, b6, b7, by rw [b8]; show tc'.nodeMap = _; rw [j6, a8],
+                    fun m hm => by rw [b9 m hm]; exact a9 m hm, b10⟩
 
 /-! ### a single `add` on a serializer without sentinel -/
 
-theorem uinv_new (K : Key → Tree) : UInv K (fun _ => Tree.nil) (TC.new none) where
+theorem uinv_new (sent : Option Bytes) (K : Key → Tree) : UInv sent K (fun _ => Tree.nil) (TC.new sent) where
   sentinel := rfl
   parents := by intro X e he; simp [TC.new] at he
   nodeMap := by intro k i h; simp [TC.new, alGet] at h
   atoms := by intro b i h; simp [TC.new, alGet] at h
   pairs := by intro l r i h; simp [TC.new, alGet] at h
+  slZero := by intro m _ i e he; simp [TC.new] at he
 
 /-- **The faithful model used as a one-shot serializer**: a serializer without sentinel, one `add` of a
 node whose `NodePtr`s determine their contents (`KOk`).  If the call returns, it reports completion,
@@ -446,7 +800,8 @@ theorem single_add_decodes (K : Key → Tree) (node : Node) (hk : KOk K node) (s
   | error e => simp [hu] at h
   | ok tc1 =>
     simp only [hu] at h
-    obtain ⟨C, i1, _, hst⟩ := update_spec (uinv_new K) node hk hu
+    obtain ⟨C, i1, _, hst, _⟩ := update_spec (uinv_new none K) node K hk (fun m hm => by cases hm)
+      (fun k i hki _ => by simp [TC.new, alGet] at hki) (fun m s0 hm => by cases hm) hu
     have hf : ([node].map Node.size).sum + 2 = node.size + 2 := by simp
     rw [hf] at h
     cases hl : fAddLoop (node.size + 2)
@@ -458,24 +813,35 @@ theorem single_add_decodes (K : Key → Tree) (node : Node) (hk : KOk K node) (s
       simp only [Except.ok.injEq, Prod.mk.injEq] at h
       obtain ⟨rfl, rfl, _⟩ := h
       have hM : M C tc1 = Tree.nil := by unfold M; rw [hst]; rfl
-      obtain ⟨r1, r2, _, r4, _⟩ := fAddLoop_sim K C _ _ s1 d1 (Tree.pair node.tree Tree.nil) hl i1 rfl
+      have hpost := fAddLoop_sim none K C (KOk K) (fun id l r hq => ⟨hq.left, hq.right⟩) (fun _ hq => hq)
+        _ _ s1 d1 (Tree.pair node.tree Tree.nil) hl i1 rfl
         (by intro n hn; simp only [List.mem_singleton] at hn; subst hn; exact hk)
-        (by intro n hn; simp at hn) trivial
+        (by intro n hn; simp at hn) (by intro n hn; simp at hn) trivial (fun m hm => by cases hm)
         (by
           show PSim [] [.sexp] (M C tc1)
           rw [hM]
           intro rest c hc
           exact Steps.refl hc)
         (by
-          show finalRootF [.parse] ([node].map Node.tree) (M C tc1) = _
+          show finalRootF K [.parse] ([node].map Node.tree) (M C tc1) = _
           rw [hM]; rfl)
-      refine ⟨r1, r2, fun rest c hc => ?_⟩
-      have hold : (∃ e, deBrOld (s1.output.buf ++ rest) [.sexp] Tree.nil c = .error e ∧ limitErr e) ∨
-          ∃ c', deBrOld (s1.output.buf ++ rest) [.sexp] Tree.nil c = .ok (node.tree, rest, c') := by
-        rcases r4 rest c hc with ⟨e, he, hle⟩ | ⟨c', _, he⟩
-        · exact .inl ⟨e, he, hle⟩
-        · exact .inr ⟨c', by rw [he]; exact deBrOld_done node.tree rest c'⟩
-      exact ⟨hold, new_of_old _ c hc node.tree rest hold⟩
+      obtain ⟨_, _, _, _, _, _, r4, _, _, r10⟩ := hpost
+      cases d1 with
+      | false =>
+        rw [if_neg (by simp)] at r10
+        obtain ⟨m, hm, _⟩ := r10
+        cases hm
+      | true =>
+        rw [if_pos rfl] at r10
+        obtain ⟨r2, _, r3⟩ := r10
+        refine ⟨rfl, r2, fun rest c hc => ?_⟩
+        rw [r2, r3] at r4
+        have hold : (∃ e, deBrOld (s1.output.buf ++ rest) [.sexp] Tree.nil c = .error e ∧ limitErr e) ∨
+            ∃ c', deBrOld (s1.output.buf ++ rest) [.sexp] Tree.nil c = .ok (node.tree, rest, c') := by
+          rcases r4 rest c hc with ⟨e, he, hle⟩ | ⟨c', _, he⟩
+          · exact .inl ⟨e, he, hle⟩
+          · exact .inr ⟨c', by rw [he]; exact deBrOld_done node.tree rest c'⟩
+        exact ⟨hold, new_of_old _ c hc node.tree rest hold⟩
 
 /-! ### the nodes the harness builds satisfy `KOk` -/
 
